@@ -84,6 +84,7 @@ class ServerWorld:
         self.req_of_task = {}           # task id -> request tag (scheduler runs)
         self.cur_req = None             # request tag (sequential runs)
         self.sched = None
+        self._shared_model = None
         self.stream_aborts = []       # (tag, exception type) when the server raised mid-stream
         self.sched_spec = sched_spec
         self.trace = trace
@@ -132,9 +133,17 @@ class ServerWorld:
                 return super().destroy()
 
         def factory():
-            model = T.build(mc["template"], mc["start"], mc["stop"], mc["dt"],
-                            constants=mc.get("constants"), points=mc.get("points"),
-                            initial=mc.get("initial"))
+            if world.cfg.get("shared_base"):
+                # style (b): one module-level base model registered into every new bptk
+                if world._shared_model is None:
+                    world._shared_model = T.build(mc["template"], mc["start"], mc["stop"], mc["dt"],
+                                                  constants=mc.get("constants"), points=mc.get("points"),
+                                                  initial=mc.get("initial"))
+                model = world._shared_model
+            else:
+                model = T.build(mc["template"], mc["start"], mc["stop"], mc["dt"],
+                                constants=mc.get("constants"), points=mc.get("points"),
+                                initial=mc.get("initial"))
             b = SimBptk()
             world.serial += 1
             b._sim_serial = world.serial
